@@ -1,11 +1,13 @@
 (* C03 — parsers terminate on every input with an error or a well-formed result.
-   Theorems for the modelled FASTA lexer/parser (Model/Fasta.v); the other
+   Theorems for the modelled FASTA and Clustal lexers/parsers (Model/Fasta.v, Model/ClustalParse.v); the other
    parsers are judged on every generated input by the spec oracle only. *)
 From Coq Require Import List Arith Bool.
 From Coq.Strings Require Import Byte.
 Import ListNotations.
 From GA.Model Require Import Fasta.
+From GA.Model Require ClustalParse.
 From GA.Proofs Require Import FastaProofs.
+From GA.Proofs Require ClustalParseProofs.
 
 (* the token loop cannot run forever: every Scan that does not report EOF
    consumes at least one byte, so any fuel above the input length yields the
@@ -32,7 +34,45 @@ Proof.
 Qed.
 Print Assumptions C03_fasta_error_or_wellformed.
 
-(* Not modelled in this revision: the Phylip, Nexus, Clustal, Stockholm and
+(* ---- Clustal (Model/ClustalParse.v: lexer with NUL / CR handling, one-token push-back, the block loop) ---- *)
+(* every Scan that does not report EOF consumes at least one byte; any fuel above the input length gives the same
+   token stream *)
+Theorem C03_clustal_scan_progress :
+  forall l t r, ClustalParse.scan l = (t, r) -> t <> ClustalParse.TEof -> length r < length l.
+Proof. exact ClustalParseProofs.scan_shrinks. Qed.
+Print Assumptions C03_clustal_scan_progress.
+
+Theorem C03_clustal_lexer_terminates :
+  forall inp f, length inp < f -> ClustalParse.lex f inp = ClustalParse.lex_all inp.
+Proof. exact ClustalParseProofs.clustal_lex_terminates. Qed.
+Print Assumptions C03_clustal_lexer_terminates.
+
+(* every turn of the parser's loop consumes a token: any fuel above the number of tokens gives the same outcome *)
+Theorem C03_clustal_parser_terminates :
+  forall ts f, length ts < f ->
+  ClustalParse.ploop f ts [] 0 0 0 = ClustalParse.ploop (S (length ts)) ts [] 0 0 0.
+Proof. exact ClustalParseProofs.clustal_parser_fuel. Qed.
+Print Assumptions C03_clustal_parser_terminates.
+
+(* for EVERY byte string the modelled Clustal parser returns an error or at least one row, every row with a non-empty
+   name and a non-empty sequence *)
+Theorem C03_clustal_error_or_wellformed :
+  forall inp, ClustalParse.parse inp = ClustalParse.RErr \/
+              exists rows, ClustalParse.parse inp = ClustalParse.ROk rows /\ rows <> [] /\
+                           forall r, In r rows -> fst r <> [] /\ snd r <> [].
+Proof.
+  intros inp. destruct (ClustalParse.parse inp) as [rows|] eqn:E; [right|left; reflexivity].
+  exists rows. split; [reflexivity|]. apply (ClustalParseProofs.clustal_parse_wellformed inp rows E).
+Qed.
+Print Assumptions C03_clustal_error_or_wellformed.
+
+Example C03_clustal_nonvacuous :
+  ClustalParse.parse [x43; x4c; x55; x53; x54; x41; x4c; x0a; x0a; x61; x20; x41; x43; x20; x32; x0a; x20; x2a; x0a] =
+    ClustalParse.ROk [([x61], [x41; x43])] /\
+  ClustalParse.parse [x43; x4c; x55; x53; x54; x41; x4c; x0a; x0a; x61; x20; x41; x43; x0a] = ClustalParse.RErr.
+Proof. split; vm_compute; reflexivity. Qed.
+
+(* Not modelled in this revision: the Phylip, Nexus, Stockholm and
    partition parsers.  Their outcomes (error / well-formed result / end of
    stream, never panic, hang or process exit) are judged on every generated
    input by Corr/C03.v spec_check, each call running in a watchdog-guarded
